@@ -209,3 +209,15 @@ Lemma site_ok_examples :
   site_ok (codes "h.ensureTopic", [(codes "allowTopic[name]:ActionProduce", codes "skip")]) = true /\
   site_ok (codes "UNGUARDED:h.ensureTopic", [(codes "allowTopic[name]:ActionProduce", codes "skip")]) = false.
 Proof. vm_compute. repeat split. Qed.
+
+(* with the client_id source the principal of a request depends on that request only: not on
+   the connection (address, PROXY header), hence not on who used the connection before *)
+Lemma resolve_client_id_request_only is_blank trim h h' cid :
+  is_blank [] = true ->
+  resolve_principal is_blank trim SrcClientId h cid = resolve_principal is_blank trim SrcClientId h' cid.
+Proof. intros Hb. unfold resolve_principal. rewrite Hb. reflexivity. Qed.
+
+Lemma resolve_addr_connection_only is_blank trim src h cid cid' :
+  src <> SrcClientId -> is_blank h = false ->
+  resolve_principal is_blank trim src h cid = resolve_principal is_blank trim src h cid'.
+Proof. intros Hs Hb. unfold resolve_principal. destruct src; [congruence| |]; rewrite Hb; reflexivity. Qed.
